@@ -252,6 +252,46 @@ func main() {
 				}, "\n")
 			}
 		}
+		// no separator at all where the reference scanner still reads the same tokens (one gap at a time, and all
+		// such gaps at once)
+		sameTokens := func(text string) bool {
+			got, err := ebnfref.TokensOfText(text)
+			if err != nil || len(got) != len(toks) {
+				return false
+			}
+			for i := range got {
+				if got[i].Kind != toks[i].Kind || got[i].Lexeme != toks[i].Lexeme {
+					return false
+				}
+			}
+			return true
+		}
+		if toks[0].Kind != "?" {
+			tight := map[int]bool{}
+			for g := 1; g < len(toks); g++ {
+				g := g
+				one := func(i int) string {
+					if i == 0 || i == g {
+						return ""
+					}
+					return " "
+				}
+				if text, _ := ebnfref.Render(toks, one, "\n"); sameTokens(text) {
+					tight[g] = true
+					try(fmt.Sprintf("gap%d:none", g), one, "\n")
+				}
+			}
+			all := func(i int) string {
+				if i == 0 || tight[i] {
+					return ""
+				}
+				return " "
+			}
+			if text, _ := ebnfref.Render(toks, all, ""); sameTokens(text) {
+				try("all-tight", all, "")
+				try("all-tight-nl", all, "\n")
+			}
+		}
 		// comments in one gap
 		for _, c := range []string{"// c\n", " /* c */ ", "/***/", " /* * / ** */", "//\n", "/**/", "\t// \"x\" = ;\n", " /* grammar g ; */ "} {
 			c := c
